@@ -15,7 +15,12 @@ def check_graph(ctx, nu, nv, edges, ref_size, in_situ=False, graph=None, cover=N
     eset = set(edges)
     ok = True
     if cover is None:
-        g = graph if graph is not None else ptn.BipartiteGraph(nu, nv, edges)
+        if graph is None:
+            # the edge container in the forms a Sequence comes in: list of tuples, tuple of tuples, list of lists, integer array of shape (E, 2)
+            form = (len(edges) + nu) % 4
+            cont = edges if form == 0 else (tuple(edges) if form == 1 else ([list(e) for e in edges] if form == 2 else (np.array(edges, dtype=np.int64).reshape(-1, 2) if len(edges) else edges)))
+            ctx.event('edge_container_form:' + ('list-of-tuples', 'tuple', 'list-of-lists', 'int-array')[form])
+        g = graph if graph is not None else ptn.BipartiteGraph(nu, nv, cont)
         if budget is not None:
             budget[0].start(budget[1])
         try:
